@@ -166,3 +166,125 @@ package sam
 //@   loop 1 decreases len(b) - j
 //@   loop 2 invariant @split 0 <= n && 0 <= i && i < len(b) && (c == nil || fresh(c)) && op < 10
 //@   loop 2 decreases n
+
+// Header identity invariant (C07): the programs reachable from a header have
+// ids equal to their index, belong to the header, have unique UIDs, and the
+// UID table maps exactly those UIDs to those indices. AddProgram and
+// RemoveProgram preserve it for every header.
+//@ spec func progsA(h *Header) bool = h.seenProgs != nil &&
+//@     (forall k in 0..len(h.progs) :: (h.progs[k] != nil && int(h.progs[k].id) == k && h.progs[k].owner == h))
+//@ spec func progsC(h *Header) bool =
+//@     (forall k in 0..len(h.progs) :: (has(h.seenProgs, h.progs[k].uid) && int(h.seenProgs[h.progs[k].uid]) == k))
+//@ spec func progsB(h *Header) bool =
+//@     (forall s string :: has(h.seenProgs, s) ==> (0 <= h.seenProgs[s] && int(h.seenProgs[s]) < len(h.progs) && h.progs[int(h.seenProgs[s])].uid == s))
+
+//@ func Header.AddProgram
+//@   mode int
+//@   props C07
+//@   terminates
+//@   requires bh != nil && p != nil && len(bh.progs) <= 1000000 && progsA(bh) && progsB(bh) && progsC(bh)
+//@   modifies p.owner, p.id, bh.progs, mapof(bh.seenProgs), arrays(*Program)
+//@   ensures[C07] @invA progsA(bh)
+//@   ensures[C07] @invB progsB(bh)
+//@   ensures[C07] @invC progsC(bh)
+//@   ensures[C07] @len result == nil ==> len(bh.progs) == old(len(bh.progs)) + 1
+//@   ensures[C07] @added result == nil ==> bh.progs[old(len(bh.progs))] == p
+//@   ensures[C07] @refused result != nil ==> len(bh.progs) == old(len(bh.progs))
+
+//@ func Header.RemoveProgram
+//@   mode int
+//@   props C07
+//@   terminates
+//@   requires bh != nil && p != nil && len(bh.progs) <= 1000000 && progsA(bh) && progsB(bh) && progsC(bh)
+//@   modifies p.id, bh.progs, mapof(bh.seenProgs), backing(bh.progs), objects(Program)
+//@   loop 0 invariant @shift 0 <= i && i <= len(bh.progs) - int(old(p.id)) && len(bh.progs) == old(len(bh.progs)) - 1 && p.id == old(p.id) &&
+//@       0 <= old(p.id) && int(old(p.id)) <= len(bh.progs) && bh.seenProgs == old(bh.seenProgs)
+//@   loop 0 invariant @list forall k in 0..len(bh.progs) :: (bh.progs[k] != nil && bh.progs[k] != p && bh.progs[k].owner == bh &&
+//@       bh.progs[k] == old(bh.progs[ite(k < int(p.id), k, k + 1)]))
+//@   loop 0 invariant @ids forall k in 0..len(bh.progs) :: int(bh.progs[k].id) == ite(k < int(old(p.id)) + i, k, k + 1)
+//@   ensures[C07] @invA progsA(bh)
+//@   ensures[C07] @invB progsB(bh)
+//@   ensures[C07] @invC progsC(bh)
+//@   ensures[C07] @removed result == nil ==> (len(bh.progs) == old(len(bh.progs)) - 1 && p.id == 0 - 1 && !has(bh.seenProgs, p.uid))
+//@   ensures[C07] @refused result != nil ==> len(bh.progs) == old(len(bh.progs))
+
+// The same invariant and contracts for read groups (keyed by name) and references (keyed by name).
+//@ spec func rgsA(h *Header) bool = h.seenGroups != nil &&
+//@     (forall k in 0..len(h.rgs) :: (h.rgs[k] != nil && int(h.rgs[k].id) == k && h.rgs[k].owner == h))
+//@ spec func rgsC(h *Header) bool =
+//@     (forall k in 0..len(h.rgs) :: (has(h.seenGroups, h.rgs[k].name) && int(h.seenGroups[h.rgs[k].name]) == k))
+//@ spec func rgsB(h *Header) bool =
+//@     (forall s string :: has(h.seenGroups, s) ==> (0 <= h.seenGroups[s] && int(h.seenGroups[s]) < len(h.rgs) && h.rgs[int(h.seenGroups[s])].name == s))
+
+
+//@ func Header.AddReadGroup
+//@   mode int
+//@   props C07
+//@   terminates
+//@   requires bh != nil && rg != nil && len(bh.rgs) <= 1000000 && rgsA(bh) && rgsB(bh) && rgsC(bh)
+//@   modifies rg.owner, rg.id, bh.rgs, mapof(bh.seenGroups), arrays(*ReadGroup)
+//@   ensures[C07] @invA rgsA(bh)
+//@   ensures[C07] @invB rgsB(bh)
+//@   ensures[C07] @invC rgsC(bh)
+//@   ensures[C07] @len result == nil ==> len(bh.rgs) == old(len(bh.rgs)) + 1
+//@   ensures[C07] @added result == nil ==> bh.rgs[old(len(bh.rgs))] == rg
+//@   ensures[C07] @refused result != nil ==> len(bh.rgs) == old(len(bh.rgs))
+
+
+//@ func Header.RemoveReadGroup
+//@   mode int
+//@   props C07
+//@   terminates
+//@   requires bh != nil && rg != nil && len(bh.rgs) <= 1000000 && rgsA(bh) && rgsB(bh) && rgsC(bh)
+//@   modifies rg.id, bh.rgs, mapof(bh.seenGroups), backing(bh.rgs), objects(ReadGroup)
+//@   loop 0 invariant @shift 0 <= i && i <= len(bh.rgs) - int(old(rg.id)) && len(bh.rgs) == old(len(bh.rgs)) - 1 && rg.id == old(rg.id) &&
+//@       0 <= old(rg.id) && int(old(rg.id)) <= len(bh.rgs) && bh.seenGroups == old(bh.seenGroups)
+//@   loop 0 invariant @list forall k in 0..len(bh.rgs) :: (bh.rgs[k] != nil && bh.rgs[k] != rg && bh.rgs[k].owner == bh &&
+//@       bh.rgs[k] == old(bh.rgs[ite(k < int(rg.id), k, k + 1)]))
+//@   loop 0 invariant @ids forall k in 0..len(bh.rgs) :: int(bh.rgs[k].id) == ite(k < int(old(rg.id)) + i, k, k + 1)
+//@   ensures[C07] @invA rgsA(bh)
+//@   ensures[C07] @invB rgsB(bh)
+//@   ensures[C07] @invC rgsC(bh)
+//@   ensures[C07] @removed result == nil ==> (len(bh.rgs) == old(len(bh.rgs)) - 1 && rg.id == 0 - 1 && !has(bh.seenGroups, rg.name))
+//@   ensures[C07] @refused result != nil ==> len(bh.rgs) == old(len(bh.rgs))
+
+//@ spec func refsA(h *Header) bool = h.seenRefs != nil &&
+//@     (forall k in 0..len(h.refs) :: (h.refs[k] != nil && int(h.refs[k].id) == k && h.refs[k].owner == h))
+//@ spec func refsC(h *Header) bool =
+//@     (forall k in 0..len(h.refs) :: (has(h.seenRefs, h.refs[k].name) && int(h.seenRefs[h.refs[k].name]) == k))
+//@ spec func refsB(h *Header) bool =
+//@     (forall s string :: has(h.seenRefs, s) ==> (0 <= h.seenRefs[s] && int(h.seenRefs[s]) < len(h.refs) && h.refs[int(h.seenRefs[s])].name == s))
+
+
+//@ func Header.RemoveReference
+//@   mode int
+//@   props C07
+//@   terminates
+//@   requires bh != nil && r != nil && len(bh.refs) <= 1000000 && refsA(bh) && refsB(bh) && refsC(bh)
+//@   modifies r.id, bh.refs, mapof(bh.seenRefs), backing(bh.refs), objects(Reference)
+//@   loop 0 invariant @shift 0 <= i && i <= len(bh.refs) - int(old(r.id)) && len(bh.refs) == old(len(bh.refs)) - 1 && r.id == old(r.id) &&
+//@       0 <= old(r.id) && int(old(r.id)) <= len(bh.refs) && bh.seenRefs == old(bh.seenRefs)
+//@   loop 0 invariant @list forall k in 0..len(bh.refs) :: (bh.refs[k] != nil && bh.refs[k] != r && bh.refs[k].owner == bh &&
+//@       bh.refs[k] == old(bh.refs[ite(k < int(r.id), k, k + 1)]))
+//@   loop 0 invariant @ids forall k in 0..len(bh.refs) :: int(bh.refs[k].id) == ite(k < int(old(r.id)) + i, k, k + 1)
+//@   ensures[C07] @invA refsA(bh)
+//@   ensures[C07] @invB refsB(bh)
+//@   ensures[C07] @invC refsC(bh)
+//@   ensures[C07] @removed result == nil ==> (len(bh.refs) == old(len(bh.refs)) - 1 && r.id == 0 - 1 && !has(bh.seenRefs, r.name))
+//@   ensures[C07] @refused result != nil ==> len(bh.refs) == old(len(bh.refs))
+
+// equalRefs compares two references field by field (empty fields match
+// anything); it is assumed not to change anything.
+//@ trusted func equalRefs
+//@   ensures result ==> a.name == b.name
+
+//@ func Header.AddReference
+//@   mode int
+//@   props C07
+//@   terminates
+//@   requires bh != nil && r != nil && len(bh.refs) <= 1000000 && refsA(bh) && refsB(bh) && refsC(bh)
+//@   modifies all(r), bh.refs, mapof(bh.seenRefs), arrays(*Reference), backing(bh.refs), objects(Reference)
+//@   ensures[C07] @invA refsA(bh)
+//@   ensures[C07] @invB refsB(bh)
+//@   ensures[C07] @invC refsC(bh)
+//@   ensures[C07] @len len(bh.refs) == old(len(bh.refs)) || (result == nil && len(bh.refs) == old(len(bh.refs)) + 1 && bh.refs[old(len(bh.refs))] == r)
